@@ -118,6 +118,7 @@ func TestVerifDriver(t *testing.T) {
 		out, facts := runF(op, in)
 		rec.i++
 		rec.count++
+		vPost(out)
 		b, err := json.Marshal(map[string]interface{}{"t": rec.t, "i": rec.i, "op": op, "in": in, "out": out, "facts": facts})
 		if err != nil {
 			panic(err)
